@@ -61,12 +61,18 @@ func parseKeySchema(schema []*types.KeySchemaElement) (keySchema, error) {
 	var ks keySchema
 
 	for _, element := range schema {
-		if element.KeyType == "HASH" {
+		switch {
+		case element.KeyType == "HASH" && ks.HashKey == "":
 			ks.HashKey = element.AttributeName
-			continue
+		case element.KeyType == "RANGE" && ks.RangeKey == "":
+			ks.RangeKey = element.AttributeName
+		case element.KeyType == "HASH":
+			return ks, types.NewError("ValidationException", "Too many hash keys specified. All Dynamo DB tables must have exactly one hash key", nil)
+		case element.KeyType == "RANGE":
+			return ks, types.NewError("ValidationException", "Too many range keys specified. All Dynamo DB tables must have at most one range key", nil)
+		default:
+			return ks, types.NewError("ValidationException", fmt.Sprintf("Value '%s' at 'keySchema.member.keyType' failed to satisfy constraint: Member must satisfy enum value set: [HASH, RANGE]", element.KeyType), nil)
 		}
-
-		ks.RangeKey = element.AttributeName
 	}
 
 	if ks.HashKey == "" {
@@ -108,6 +114,19 @@ func (t *Table) validateAttributeDefinition(ks keySchema, message string) error 
 
 	if _, ok := t.AttributesDef[ks.RangeKey]; ks.RangeKey != "" && !ok {
 		return types.NewError("ValidationException", fmt.Sprintf("%sRange Key not specified in Attribute Definitions.", message), nil)
+	}
+
+	// a key attribute is a string, a number or a binary: no other type has an order or an identity to key by
+	for _, name := range []string{ks.HashKey, ks.RangeKey} {
+		if name == "" {
+			continue
+		}
+
+		switch t.AttributesDef[name] {
+		case "S", "N", "B":
+		default:
+			return types.NewError("ValidationException", fmt.Sprintf("%sValue '%s' at 'attributeDefinitions.member.attributeType' of the key attribute %s failed to satisfy constraint: Member must satisfy enum value set: [B, N, S]", message, t.AttributesDef[name], name), nil)
+		}
 	}
 
 	return nil
